@@ -402,6 +402,19 @@ Proof.
     eapply good_trans; eauto. apply merge_good; [apply (good_ok _ _ _ G1) | eapply own_mono; [eauto | apply G1]].
 Qed.
 
+(* a well-behaved merge step (a predicate on arbitrary heap functions): given the destination the write
+   owns and the caller's message it follows the discipline - it writes only the caller's objects and
+   objects of this very operation, and never links objects of the two owners *)
+Definition wb_merge (mf : mfun) : Prop :=
+  forall lo s dst src, heap_ok lo s -> own lo (nxt s) Lib dst -> own lo (nxt s) Caller src ->
+                       good lo s (mf s dst src).
+
+Lemma wb_merge_upd n um : wb_merge (fun s dst src => upd_merge n s dst src um).
+Proof.
+  intros lo s dst src Hs Hd Hsrc. apply upd_merge_good; auto.
+  destruct Hd as (Hd & ? & ?). rewrite Hd. split; auto.
+Qed.
+
 (* a tag the subscriber / reader is given: an existing one or a fresh library object *)
 Definition handed (nx : Z) (t : tag) : Prop := snd t < nx.
 
